@@ -92,15 +92,15 @@ class QDecls:
         self.add(name + suffix, typ, ts, ov)
         return name + suffix
 
-    def pywbem(self):
+    def pywbem(self, names):
         scopes = dict(CLASS=True, ASSOCIATION=True, INDICATION=True, PROPERTY=True, REFERENCE=True, METHOD=True,
                       PARAMETER=True)
         return [CIMQualifierDeclaration(n, t, scopes=scopes, tosubclass=ts, overridable=ov)
-                for n, t, ts, ov in self.d.values()]
+                for n, t, ts, ov in (self.d[x] for x in sorted(names))]
 
-    def mof(self):
+    def mof(self, names):
         out = []
-        for n, t, ts, ov in self.d.values():
+        for n, t, ts, ov in (self.d[x] for x in sorted(names)):
             fl = [{True: 'ToSubclass', False: 'Restricted'}[ts]] if ts is not None else []
             fl += [{True: 'EnableOverride', False: 'DisableOverride'}[ov]] if ov is not None else []
             out.append('Qualifier %s : %s, Scope(any)%s;' % (n, t, ', Flavor(%s)' % ', '.join(fl) if fl else ''))
@@ -200,19 +200,26 @@ def init_qual(q, qd):
     _, _, dts, dov = qd.d[name.lower()]
     ets = ts if ts is not None else (True if dts is None else dts)
     eov = ov if ov is not None else (True if dov is None else dov)
-    return dict(name=name, value=value, ts=ets, ov=eov, prop=False, why='local')
+    return dict(name=name, value=value, ts=ets, ov=eov, prop=False, why='local', decl_why='local')
 
 
-def merge_quals(declared, inherited, qd, soft):
-    """Qualifiers of something the class writes down (`declared`), given the same thing in the superclass."""
+def merge_quals(declared, inherited, qd, soft, shadow=None):
+    """Qualifiers of something the class writes down (`declared`), given the same thing in the superclass.
+    `shadow`: restricted qualifiers (name -> overridable) of the nearest ancestor that wrote the element down, if
+    the classes in between did not: for the model they ended there, so writing them again is a local qualifier."""
     out = {}
     for q in declared:
         out[q[0].lower()] = init_qual(q, qd)
+    for ln, ov in (shadow or {}).items():
+        if ln in out:
+            out[ln]['why'] = out[ln]['decl_why'] = 'local-over-restricted'
+            if not ov:
+                soft.append(ln)
     for ln, iq in (inherited or {}).items():
         if not iq['ts']:
             # restricted: stays in the superclass; what the subclass writes is its own
             if ln in out:
-                out[ln]['why'] = 'local-over-restricted'
+                out[ln]['why'] = out[ln]['decl_why'] = 'local-over-restricted'
                 if not iq['ov']:
                     soft.append(ln)     # Restricted + DisableOverride written again: either outcome accepted
             continue
@@ -222,7 +229,7 @@ def merge_quals(declared, inherited, qd, soft):
                     raise Reject('disableoverride-qualifier-changed')
                 out[ln]['prop'] = None      # same value written again: flag left open
                 out[ln]['ov'] = False
-                out[ln]['why'] = 'same-as-inherited'
+                out[ln]['why'] = out[ln]['decl_why'] = 'same-as-inherited'
         else:
             c = dict(iq)
             c['prop'] = True
@@ -263,8 +270,8 @@ def resolve(decl, sup, qd):
                 if e['type'] != ie['type']:
                     raise Reject('override-changes-type')
                 re_ = dict(kind=kind, name=e['name'], type=e['type'], refclass=low(e['refclass']),
-                           origin=ie['origin'], propagated=None, how='override',
-                           quals=merge_quals(elem_quals(e), ie['quals'], qd, soft), params={})
+                           origin=ie['origin'], propagated=None, how='override', shadow={},
+                           quals=merge_quals(elem_quals(e), ie['quals'], qd, soft, ie['shadow']), params={})
                 if kind == 'm':
                     for p in e['params']:
                         pl = p['name'].lower()
@@ -278,7 +285,7 @@ def resolve(decl, sup, qd):
                                                      quals=inherit_quals(ip['quals']), how='inherited')
             else:
                 re_ = dict(kind=kind, name=e['name'], type=e['type'], refclass=low(e['refclass']),
-                           origin=cname.lower(), propagated=False, how='new',
+                           origin=cname.lower(), propagated=False, how='new', shadow={},
                            quals=merge_quals(elem_quals(e), None, qd, soft), params={})
                 for p in e['params']:
                     re_['params'][p['name'].lower()] = dict(name=p['name'], type=p['type'], how='new',
@@ -289,6 +296,8 @@ def resolve(decl, sup, qd):
                 c = dict(ie)
                 c['propagated'] = True
                 c['how'] = 'inherited'
+                c['shadow'] = dict(ie['shadow'])
+                c['shadow'].update({q: v['ov'] for q, v in ie['quals'].items() if not v['ts']})
                 c['quals'] = inherit_quals(ie['quals'])
                 c['params'] = {pl: dict(ip, quals=inherit_quals(ip['quals']), how='inherited')
                                for pl, ip in ie['params'].items()}
@@ -324,7 +333,8 @@ def diff_quals(exp, obs, slot, elem, param, out, check_prop=True):
         if oq is None:
             if not eq.get('opt'):
                 out.append(dict(kind='qualifier-missing', slot=slot, elem=elem, param=param, qual=ln,
-                                why=eq.get('why'), expected=eq['value'], observed=None))
+                                why=eq.get('why'), decl_why=eq.get('decl_why'), expected=eq['value'],
+                                observed=None))
             continue
         if oq['value'] != eq['value']:
             out.append(dict(kind='qualifier-value-wrong', slot=slot, elem=elem, param=param, qual=ln,
@@ -413,6 +423,11 @@ def classify(d, rc, sup_rc):
     if kind == 'qualifier-propagated-flag-wrong' and d['why'] == 'local-over-restricted' and d['observed']:
         # a qualifier written in this class over a restricted (hence not inherited) one is marked propagated
         return 'known:restricted-qualifier-redeclared-marked-propagated'
+    if kind == 'qualifier-missing' and slot in ('property', 'method') and d['why'] == 'inherited' \
+            and d.get('decl_why') == 'same-as-inherited':
+        # a DisableOverride qualifier repeated with the same value keeps unset flavors (no _init_qualifier) and
+        # is then treated as restricted one level further down
+        return 'known:repeated-disableoverride-qualifier-not-propagated-further'
     if kind == 'qualifier-missing' and slot == 'parameter' and d['why'] == 'inherited' \
             and d.get('how') == 'redeclared':
         # parameters of an overriding method that are written again get no inherited qualifiers
@@ -421,15 +436,23 @@ def classify(d, rc, sup_rc):
 
 
 # ------------------------------------------------------------------------------------- repository driver
-def new_conn(qd, via_mof=False):
+def new_conn(qd, names=()):
+    """A fresh mock server with the named qualifier declarations (lower-cased names)."""
     conn = FakedWBEMConnection()
-    if via_mof:
-        with contextlib.redirect_stdout(SINK):
-            conn.compile_mof_string(qd.mof())
-    else:
-        for q in qd.pywbem():
-            conn.SetQualifier(q)
+    for q in qd.pywbem(names):
+        conn.SetQualifier(q)
     return conn
+
+
+def qual_names(decl):
+    out = {'override'}
+    for q in decl['quals']:
+        out.add(q[0].lower())
+    for e in decl['elems']:
+        out.update(q[0].lower() for q in e['quals'])
+        for p in e['params']:
+            out.update(q[0].lower() for q in p['quals'])
+    return out
 
 
 def full_class(conn, name):
@@ -442,10 +465,13 @@ class Repo:
     def __init__(self, qd, path='CreateClass'):
         self.qd = qd
         self.path = path
-        self.conn = new_conn(qd, via_mof=(path == 'MOF'))
+        self.conn = new_conn(qd)
+        self.have = set()       # qualifier declarations already in the repository
         self.decls = []         # accepted declarations in creation order
         self.model = {}         # lname -> resolved class
         self.tried = []         # every declaration handed to the server
+        self.diffs = {}         # lname -> set of difference signatures of the last check (cascade suppression)
+        self.diverged = False   # the server accepted what the model refuses: class set no longer comparable
 
     def info(self, elem=None, **kw):
         d = dict(path=self.path, mof=focus(self.tried, self.qd, elem))
@@ -453,7 +479,8 @@ class Repo:
         return d
 
     def submit(self, decl, op='create'):
-        """Create (or modify) one class and compare the outcome with the model.  -> True if accepted by both."""
+        """Create (or modify) one class and compare the outcome with the model.
+        -> True accepted by both, False refused by both, None after a disagreement (reported)."""
         self.tried.append(decl)
         sup = self.model.get(low(decl['sup'])) if decl['sup'] else None
         if decl['sup'] and sup is None:
@@ -466,45 +493,118 @@ class Repo:
             except Reject as r:
                 verdict, rc, soft, why = 'reject', None, [], str(r)
         err = None
+        missing = qual_names(decl) - self.have
         try:
-            if op == 'modify':
-                self.conn.ModifyClass(to_pywbem(decl, self.qd))
-            elif self.path == 'MOF':
+            if self.path == 'MOF' and op == 'create':
                 with contextlib.redirect_stdout(SINK):
+                    self.conn.compile_mof_string(self.qd.mof(missing))      # not rolled back with the class
+                    self.have |= missing
                     self.conn.compile_mof_string(to_mof(decl, self.qd))
             else:
-                self.conn.CreateClass(to_pywbem(decl, self.qd))
+                for q in self.qd.pywbem(missing):
+                    self.conn.SetQualifier(q)
+                self.have |= missing
+                if op == 'modify':
+                    self.conn.ModifyClass(to_pywbem(decl, self.qd))
+                else:
+                    self.conn.CreateClass(to_pywbem(decl, self.qd))
         except CIMError as e:
             err = e.status_code
         except Error as e:
             ce = getattr(e, 'cim_error', None)
             err = ce.status_code if isinstance(ce, CIMError) else 'Error:' + type(e).__name__
         except Exception as e:      # noqa
-            R.violation('%s-raises-%s' % (op, type(e).__name__), **self.info(error=repr(e)[:200]))
-            return False
+            vid = '%s-raises-%s' % (op, type(e).__name__)
+            if isinstance(e, AttributeError) and "'CIMParameter' object has no attribute 'propagated'" in str(e) \
+                    and sup and self.omits_parameter(decl, sup):
+                # the copy of a not repeated parameter is given an attribute CIMParameter does not have
+                vid = 'known:override-method-omitting-parameters-raises-AttributeError'
+            R.violation(vid, **self.info(cls=decl['name'], error=repr(e)[:200]))
+            return None
         if verdict == 'reject':
             if err is None:
                 vid = '%s-accepted-%s' % (op, why)
                 if why == 'disableoverride-qualifier-changed':
                     vid = self.classify_accept(decl, sup, vid)
                 R.violation(vid, **self.info(cls=decl['name']))
-                return False
+                self.diverged = True
+                return None
             want = INVALID_SUPERCLASS if why == 'superclass-missing' else INVALID_PARAMETER
-            if err != want:
+            # the MOF compiler turns both refusals into a search for the missing class (MOFDependencyError)
+            if err != want and not (self.path == 'MOF' and op == 'create' and err == 'Error:MOFDependencyError'):
                 R.violation('%s-rejected-with-wrong-status' % op, **self.info(cls=decl['name'], expected=want,
                                                                               observed=err, reason=why))
             return False
         if err is not None:
-            if soft and err == INVALID_PARAMETER:
+            if soft and (err == INVALID_PARAMETER or (self.path == 'MOF' and err == 'Error:MOFDependencyError')):
                 return False            # Restricted + DisableOverride written again: refusal is fine too
-            R.violation('%s-refused-valid-class' % op, **self.info(cls=decl['name'], status=err))
-            return False
+            vid = '%s-refused-valid-class' % op
+            if (err == INVALID_PARAMETER or (self.path == 'MOF' and err == 'Error:MOFDependencyError')) \
+                    and sup and self.repeats_below_repeat(decl, sup):
+                # same cause as 'not-propagated-further': the repeated qualifier now counts as restricted and,
+                # with DisableOverride set on the qualifier use itself (as the MOF compiler does, or the caller),
+                # writing it a third time is refused
+                vid = 'known:repeated-disableoverride-qualifier-refused-further-down'
+            R.violation(vid, **self.info(cls=decl['name'], status=err))
+            return None
         if op == 'create':
             self.decls.append(decl)
         else:
             self.decls = [decl if d['name'].lower() == decl['name'].lower() else d for d in self.decls]
         self.model[decl['name'].lower()] = rc
         return True
+
+    def submit_all(self, decls):
+        """Create a list of classes; stops at the first disagreement with the model.  The MOF path compiles
+        everything in one go if the model accepts every class (one parser per repository), else one by one."""
+        if self.path == 'MOF':
+            model, clean = dict(self.model), True
+            for dcl in decls:
+                try:
+                    rc, soft = resolve(dcl, model.get(low(dcl['sup'])), self.qd)
+                except Reject:
+                    clean = False
+                    break
+                if soft or (dcl['sup'] and low(dcl['sup']) not in model):
+                    clean = False
+                    break
+                model[dcl['name'].lower()] = rc
+            if clean:
+                missing = set().union(*[qual_names(d) for d in decls]) - self.have
+                text = self.qd.mof(missing) + ''.join(to_mof(d, self.qd) for d in decls)
+                try:
+                    with contextlib.redirect_stdout(SINK):
+                        self.conn.compile_mof_string(text)
+                    self.have |= missing
+                    self.model = model
+                    self.decls += decls
+                    self.tried += decls
+                    return True
+                except Exception:       # noqa  - start over and find the refused class one by one
+                    self.conn = new_conn(self.qd)
+                    self.have = set()
+        for dcl in decls:
+            if self.submit(dcl) is None:
+                return False
+        return True
+
+    @staticmethod
+    def repeats_below_repeat(decl, sup):
+        for e in decl['elems']:
+            ie = sup['props' if e['kind'] == 'p' else 'meths'].get(e['name'].lower())
+            for q in (e['quals'] if ie else []):
+                iq = ie['quals'].get(q[0].lower())
+                if iq and iq['decl_why'] == 'same-as-inherited' and iq['value'] == q[1]:
+                    return True
+        return False
+
+    @staticmethod
+    def omits_parameter(decl, sup):
+        for e in decl['elems']:
+            ie = sup['meths'].get(e['name'].lower()) if e['kind'] == 'm' else None
+            if ie and set(ie['params']) - {p['name'].lower() for p in e['params']}:
+                return True
+        return False
 
     def classify_accept(self, decl, sup, vid):
         """The model refuses a changed DisableOverride qualifier; name where the server let it through."""
@@ -521,7 +621,7 @@ class Repo:
                 for q in e['quals']:
                     iq = ie['quals'].get(q[0].lower())
                     if iq and iq['ts'] and not iq['ov'] and iq['value'] != q[1]:
-                        where.add('element')
+                        where.add('element-below-repeat' if iq['decl_why'] == 'same-as-inherited' else 'element')
                 for p in e['params']:
                     ip = ie['params'].get(p['name'].lower())
                     for q in p['quals']:
@@ -532,6 +632,8 @@ class Repo:
             return 'known:class-qualifier-disableoverride-change-accepted'
         if where == {'parameter'}:
             return 'known:parameter-qualifier-disableoverride-change-accepted'
+        if where == {'element-below-repeat'}:
+            return 'known:repeated-disableoverride-qualifier-change-accepted-further-down'
         return vid
 
     def check_class(self, lname, ctx, casemap=None):
@@ -544,7 +646,13 @@ class Repo:
                                                                                    error=repr(e)[:200]))
             return None
         sup = self.model.get(rc['sup']) if rc['sup'] else None
+        supdiffs = self.diffs.get(rc['sup'], set()) if rc['sup'] else set()
+        mine = self.diffs[lname] = set()
         for d in diff_class(rc, obs):
+            sig = (d['kind'], d['slot'], d.get('elem'), d.get('param'), d.get('qual'), repr(d.get('observed')))
+            mine.add(sig)
+            if sig in supdiffs and self.untouched(rc, d):
+                continue        # the superclass already shows this difference and the class copies it verbatim
             vid = classify(d, rc, sup)
             if not vid.startswith('known:'):
                 vid = ctx + ':' + vid
@@ -553,10 +661,23 @@ class Repo:
                                          diff={k: v for k, v in d.items() if k not in ('obs_ts',)}))
         return obs
 
+    @staticmethod
+    def untouched(rc, d):
+        if d['slot'] == 'class':
+            return False
+        e = rc['props' if d['slot'] == 'property' else 'meths'].get(d.get('elem'))
+        if e is None:
+            return d['kind'] == 'element-extra'
+        if e['how'] == 'inherited':
+            return True
+        p = e['params'].get(d.get('param')) if d.get('param') else None
+        return bool(p) and p['how'] == 'inherited'
+
     def check_all(self, ctx, casemap=None):
-        for ln in list(self.model):
-            self.check_class(ln, ctx, casemap)
-        self.check_names(ctx)
+        for dcl in self.decls:          # creation order: superclasses first
+            self.check_class(dcl['name'].lower(), ctx, casemap)
+        if not self.diverged:
+            self.check_names(ctx)
 
     def check_names(self, ctx):
         try:
@@ -830,7 +951,7 @@ def hier_decl(i, par):
 
 def build_hier(par, order, qd, with_instances):
     """-> (conn, parents map, instances {lname: [key values]}) or None after reporting."""
-    conn = new_conn(qd)
+    conn = new_conn(qd, ('key', 'description'))
     n = len(par)
     desc = dict(parents=[None if p is None else NAMES[p] for p in par], names=NAMES[:n],
                 order=[NAMES[i] for i in order])
@@ -995,7 +1116,7 @@ def section_hierarchy():
             leaves = [i for i in range(n) if par[i] is not None]
             if leaves:
                 R.case(('hier-child-first', f))
-                conn = new_conn(qd)
+                conn = new_conn(qd, ('key', 'description'))
                 i = leaves[-1]
                 try:
                     conn.CreateClass(to_pywbem(hier_decl(i, par), qd))
@@ -1224,9 +1345,12 @@ def run_chain(cases, d, tag, variant, paths, do_modify, do_flags):
         for case in cases:
             R.case(('elem', path, variant) + case)
         repo = Repo(qd, path)
-        for dcl in decls:
-            if not repo.submit(dcl):
-                break
+        if path == 'MOF':
+            repo.submit_all(decls)
+        else:
+            for dcl in decls:
+                if not repo.submit(dcl):
+                    break
         repo.check_all('resolve' if path == 'CreateClass' else 'resolve-mof', casemap)
         if do_flags and path == 'CreateClass':
             check_flags(repo, 'chain')
@@ -1290,16 +1414,14 @@ def section_elements():
         for c in solo:
             chain_no[0] += 1
             n = chain_no[0]
-            run_chain([c], d, str(n), n % 2, ['CreateClass'] + (['MOF'] if n % 8 == 0 else []),
-                      do_modify=False, do_flags=False)
+            run_chain([c], d, str(n), n % 2, ['CreateClass'], do_modify=False, do_flags=False)
 
 
 # ------------------------------------------------------------------------------------- hand-written forests
 def run_forest(decls, ctx, qd=None, flags=False, path='CreateClass'):
     qd = qd or QDecls()
     repo = Repo(qd, path)
-    for dcl in decls:
-        repo.submit(dcl)
+    repo.submit_all(decls)
     repo.check_all(ctx)
     if flags:
         check_flags(repo, ctx)
@@ -1316,13 +1438,14 @@ def section_special():
                                                          PA('Out', typ, [Q('QTD', 'out')])])])
         left = CL('S_Left', 's_root', [Q('Description', 'left')],
                   [PR('shared', typ, [Q('QTE', 'l')], override='Shared'), PR('LeftOnly', 'uint8'),
-                   ME('Op', 'uint32', [Q('QRE', 'l-op')], [], override='OP')])
+                   ME('Op', 'uint32', [Q('QRE', 'l-op')], [PA('in', 'string'), PA('Out', typ, [Q('QTD', 'out')])],
+                      override='OP')])
         right = CL('S_Right', 'S_ROOT', [], [PR('RightOnly', 'uint8', [Q('QRE', 'ro')])])
         ll = CL('S_LeftLeaf', 'S_Left', [Q('QTD', 'fixed')],
                 [PR('SHARED', typ, [Q('QTD', 'r')], override='shared'),
                  ME('Extra', 'string', [], [PA('A', 'uint8')])])
         rl = CL('S_RightLeaf', 'S_Right', [],
-                [ME('Op', 'uint32', [], [PA('In', 'string')], override='Op'),
+                [ME('Op', 'uint32', [], [PA('In', 'string'), PA('OUT', typ)], override='Op'),
                  PR('RightOnly', 'uint8', [], override='RightOnly')])
         for oi, order in enumerate(([root, left, right, ll, rl], [root, right, rl, left, ll],
                                     [root, right, left, rl, ll])):
@@ -1365,10 +1488,12 @@ def section_special():
         a = CL('A_Assoc', None, [Q('Association', True), Q('Description', 'assoc')],
                [PR('Left', 'reference', [Q('Key', True), Q('QTE', 'l')], refclass='A_End'),
                 PR('Right', 'reference', [Q('Key', True)], refclass='A_End')])
-        bq = [Q('Association', True)] if vi % 2 == 0 else []
-        b = CL('A_AssocSub', 'A_Assoc', bq,
-               [PR('Left', 'reference', [Q('QTE', 'narrow')] if vi < 2 else [], override='Left',
-                   refclass='A_EndSub')])
+        if vi % 2 == 0:
+            b = CL('A_AssocSub', 'A_Assoc', [Q('Association', True)],
+                   [PR('Left', 'reference', [Q('QTE', 'narrow')] if vi < 2 else [], override='Left',
+                       refclass='A_EndSub')])
+        else:
+            b = CL('A_AssocSub', 'A_Assoc', [], [PR('Since', 'datetime')])
         c = CL('A_AssocLeaf', 'a_assocsub', [], [PR('Weight', 'uint8')])
         run_forest(ends + [a, b, c], 'association', flags=(vi == 0),
                    path='MOF' if vi == 3 else 'CreateClass')
@@ -1381,7 +1506,7 @@ def section_special():
               CL('M_Leaf', 'M_Parent', [], [PR('p', 'uint8', [Q('QTE', 'le')], override='P')]),
               CL('M_Leaf', 'M_Parent', [Q('QTD', 'pd')], [PR('P', 'uint8', [Q('QTD', 'pd'), Q('QRE', 'lr')],
                                                              override='p'),
-                                                          ME('M', 'uint32', [], [], override='M')]),
+                                                          ME('M', 'uint32', [], [PA('X', 'string')], override='M')]),
               CL('M_Leaf', 'M_PARENT', [], [ME('M', 'uint32', [Q('QTE', 'lm')], [PA('X', 'string')],
                                                override='M'), ME('M2', 'uint8')]),
               CL('M_Leaf', 'M_Parent', [], [PR('P', 'uint8', [Q('QTD', 'changed')], override='P')]),   # refused
@@ -1414,9 +1539,12 @@ def section_special():
 
 
 def main():
-    section_special()
-    section_hierarchy()
-    section_elements()
+    import sys
+    import time
+    for sec in (section_special, section_hierarchy, section_elements):
+        t = time.time()
+        sec()
+        print(sec.__name__, round(time.time() - t, 1), R.cases, file=sys.stderr)
     R.finish()
 
 
